@@ -231,6 +231,10 @@ def _seq_parts(e: ast.expr) -> Optional[List[ast.expr]]:
     return None
 
 
+# record types of the package: ``Name = collections.namedtuple('Name', [fields])`` -> field names (filled in by Repo)
+NAMEDTUPLE_FIELDS: Dict[str, List[str]] = {}
+
+
 class _Simplify(ast.NodeTransformer):
     """Projections of literal containers: ``(a, b)[1]`` -> ``b``, ``{'k': v}['k']`` -> ``v`` (a helper that returns a
     tuple / builds a keyword dict does not hide the values it passes on)."""
@@ -247,6 +251,23 @@ class _Simplify(ast.NodeTransformer):
             parts = _seq_parts(node)
             if parts is not None and not (len(parts) == 1 and isinstance(parts[0], ast.Starred) and parts[0].value is node.args[0]):
                 return ast.List(elts=parts, ctx=ast.Load())
+        return node
+
+    def visit_Attribute(self, node):
+        node = self.generic_visit(node)
+        # PContextDef(a, b, c).sop_class -> b: a record built in place does not hide the value it carries
+        v = node.value
+        if isinstance(node.ctx, ast.Load) and isinstance(v, ast.Call) and not any(isinstance(a, ast.Starred) for a in v.args) \
+                and not any(k.arg is None for k in v.keywords):
+            nm = v.func.id if isinstance(v.func, ast.Name) else v.func.attr if isinstance(v.func, ast.Attribute) else None
+            fields = NAMEDTUPLE_FIELDS.get(nm)
+            if fields and node.attr in fields and len(v.args) + len(v.keywords) <= len(fields):
+                i = fields.index(node.attr)
+                if i < len(v.args):
+                    return v.args[i]
+                for k in v.keywords:
+                    if k.arg == node.attr:
+                        return k.value
         return node
 
     def visit_BinOp(self, node):
@@ -277,6 +298,41 @@ class _Simplify(ast.NodeTransformer):
                     if k.value == sl.value and type(k.value) is type(sl.value):
                         return val
         return node
+
+
+def _comprehension_item(term: str):
+    """(item term, [filter terms]) for a term that is a one-generator list comprehension / generator expression"""
+    if not (term[:1] in '[(' and ' for ' in term):
+        return None
+    try:
+        e = ast.parse(term, mode='eval').body
+    except SyntaxError:
+        return None
+    if not (isinstance(e, (ast.ListComp, ast.GeneratorExp)) and len(e.generators) == 1 and not e.generators[0].is_async):
+        return None
+    g = e.generators[0]
+    src = 'ITEM(%s)' % ast.unparse(g.iter)
+    env: Dict[str, ast.expr] = {}
+    if isinstance(g.target, ast.Name):
+        env[g.target.id] = ast.parse(src, mode='eval').body
+    elif isinstance(g.target, (ast.Tuple, ast.List)) and all(isinstance(x, ast.Name) for x in g.target.elts):
+        for i, x in enumerate(g.target.elts):
+            env[x.id] = ast.parse('%s[%d]' % (src, i), mode='eval').body
+    else:
+        return None
+
+    class B(ast.NodeTransformer):
+        def visit_Name(self, n):
+            if n.id in env and isinstance(n.ctx, ast.Load):
+                import copy as _copy
+                return _copy.deepcopy(env[n.id])
+            return n
+    import copy as _copy
+    if any(isinstance(y, (ast.ListComp, ast.GeneratorExp, ast.DictComp, ast.SetComp, ast.Lambda)) for y in ast.walk(e.elt)):
+        return None
+    item = ast.unparse(_Simplify().visit(B().visit(_copy.deepcopy(e.elt))))
+    conds = [ast.unparse(_Simplify().visit(B().visit(_copy.deepcopy(c)))) for c in g.ifs]
+    return item, conds
 
 
 def _literal_truth(term: str) -> Optional[bool]:
@@ -1069,7 +1125,14 @@ class SymClient(Client):
     def loop_bind(self, st: ast.For, s: SymState):
         it = self.term(st.iter, s)
         item = 'ITEM(%s)' % it
+        conds = []
+        mapped = _comprehension_item(it)
+        if mapped is not None:
+            # iterating ``[E for v in S if C]``: the item is E at an item of S that passes C
+            item, conds = mapped
         s1 = self.assign(st.target, None, item, s)
+        for c_ in conds:
+            s1 = s1.add_cond('+' + c_)
         return [s1.add_cond('+iter:%s' % self._loop_key(st))]
 
     def loop_exhausted(self, st: ast.For, s: SymState):
